@@ -165,6 +165,27 @@ Proof.
   intros [] a4 H4. apply triple_ret. split; [|lia]. destruct t; ptw.
 Qed.
 
+(* a scoped third object built by [mk] and destroyed: nothing of it is left *)
+Lemma spec_scoped_build a (mk : G nat) (P : nat -> Prop) :
+  cshape a 2 0 -> triple a mk (cpost 2 a P) ->
+  triple a (do n <- mk ; exe emit (destructor 2 n) ; ret 0) (cpost 2 a (fun n' => n' = 0)).
+Proof.
+  intros Hc Hmk.
+  eapply triple_bind; [exact Hmk|]. intros k a1 [_ H1].
+  eapply triple_bind.
+  { eapply triple_emit_legal with (Q := fun _ a4 => same a4 (fun l => a1 l && negb (in_range 2 0 k l))).
+    - apply legal_destructor2. intros i. pw.
+    - intros a4 H4. exact H4. }
+  intros [] a4 H4. apply triple_ret. split; [reflexivity|]. pwl l.
+Qed.
+
+Lemma spec_discard s a (g : G nat) : inv s a ->
+  triple a g (cpost 2 a (fun n' => n' = 0)) -> triple a (do _ <- g ; ret s) inv.
+Proof.
+  intros Hinv Hg. inv_facts Hinv.
+  eapply triple_bind; [exact Hg|]. intros n a1 [-> H1]. apply triple_ret. split; [|lia]. ptw.
+Qed.
+
 Lemma elems_length m c n : length (elems m c n) = n.
 Proof. unfold elems. rewrite map_length, seq_length. reflexivity. Qed.
 
@@ -174,7 +195,7 @@ Proof.
   assert (Hext : forall j, a (Ext j) = false) by (intros j; pw).
   unfold step_sv. cbv zeta.
   destruct o as [t x|t x|t x|t|t pos x|t pos x|t pos k x|t pos xs|t pos xs|t pos x|t pos|t f l|t|t k|t k x|t k x|t xs
-                 | |t|t|t|t|t|t pid|t x|t|t|t|t x|t x|t x|t x|t x|t x|t|t|t|t|t|t|t x|t x|t x|t x|t x|t x|t x|t x];
+                 | |t|t|t|t|t|t pid|t x|t|t|t|t x|t x|t x|t x|t x|t x|t|t|t|t|t|t|t x|t x|t x|t x|t x|t x|t x|t x|t|t xs|k|k x|xs];
     try (apply triple_ret; exact Hinv).
   - (* PushBackRv *)
     eapply spec_on with (P := fun n' => n' = S (sel t s) /\ n' <= cap); [exact Hinv| |lia].
@@ -306,6 +327,53 @@ Proof.
     eapply spec_on with (P := fun n' => n' <= cap); [exact Hinv| |lia].
     apply spec_with_ext; [exact Hext|]. intros a1 H1.
     apply spec_flat_erase_key; [intros i; destruct t; pw|destruct t; cbn [sel]; lia].
+  - (* FlatExtract *)
+    eapply triple_bind.
+    { apply spec_move_construct with (o := cid t) (m := sel t s); [intros i; pw|intros i; destruct t; pw|destruct t; cbn [sel]; lia|pw]. }
+    intros k a1 [-> H1].
+    eapply triple_bind.
+    { apply spec_clear with (c := cid t) (n := sel t s). intros i; destruct t; pw. }
+    intros n a2 [-> H2].
+    eapply triple_bind.
+    { eapply triple_emit_legal with (Q := fun _ a4 => same a4 (fun l => a2 l && negb (in_range 2 0 (sel t s) l))).
+      - apply legal_destructor2. intros i. destruct t; pw.
+      - intros a4 H4. exact H4. }
+    intros [] a4 H4. apply triple_ret. split.
+    + destruct t; ptw.
+    + destruct t; cbn [upd sel fst snd]; lia.
+  - (* FlatReplace *)
+    eapply triple_bind.
+    { apply spec_emplace_all with (c := 2) (n := 0); [intros i; pw|lia|].
+      intros h Hh. apply in_map_iff in Hh. destruct Hh as [v [<- _]]. reflexivity. }
+    intros k a1 [[-> Hk] H1]. rewrite map_length in *. cbn [Nat.add] in *.
+    eapply triple_bind.
+    { apply spec_move_assign with (o := 2) (m := length xs); [intros i; destruct t; pw|intros i; destruct t; pw|destruct t; cbn; lia|exact Hk|pw]. }
+    intros n a2 [-> H2].
+    eapply triple_bind.
+    { eapply triple_emit_legal with (Q := fun _ a4 => same a4 (fun l => a2 l && negb (in_range 2 0 (length xs) l))).
+      - apply legal_destructor2. intros i. destruct t; pw.
+      - intros a4 H4. exact H4. }
+    intros [] a4 H4. apply triple_ret. split.
+    + destruct t; ptw.
+    + destruct t; cbn [upd sel fst snd]; lia.
+  - (* CtorN *)
+    apply spec_discard; [exact Hinv|].
+    eapply triple_bind; [apply triple_require'|]. intros [] ? [Hb ->].
+    apply spec_scoped_build with (P := fun n' => n' = k /\ n' <= cap); [intros i; pw|].
+    apply spec_emplace_n; [intros i; pw|lia|pw|lia].
+  - (* CtorNVal *)
+    apply spec_discard; [exact Hinv|].
+    apply spec_with_ext; [exact Hext|]. intros a1 H1.
+    eapply triple_bind; [apply triple_require'|]. intros [] ? [Hb ->].
+    apply spec_scoped_build with (P := fun n' => n' = 0 + k /\ n' <= cap); [intros i; pw|].
+    apply spec_insert_n; [intros i; pw|lia|pw|pw].
+  - (* CtorRange *)
+    apply spec_discard; [exact Hinv|].
+    apply spec_with_ext; [exact Hext|]. intros a1 H1.
+    eapply triple_bind; [apply triple_require'|]. intros [] ? [Hb ->].
+    apply spec_scoped_build with (P := fun n' => n' = 0 + length (exts (length xs)) /\ n' <= cap); [intros i; pw|].
+    apply spec_insert_range; [intros i; pw|lia| |pw].
+    intros src Hsrc. unfold exts in Hsrc. apply in_map_iff in Hsrc. destruct Hsrc as [j [<- Hj]]. apply in_seq in Hj. pw.
 Qed.
 
 Lemma step_iv_inv s m o a : inv s a -> triple a (step_iv fl cap s m o) inv.
@@ -314,7 +382,7 @@ Proof.
   assert (Hext : forall j, a (Ext j) = false) by (intros j; pw).
   unfold step_iv. cbv zeta.
   destruct o as [t x|t x|t x|t|t pos x|t pos x|t pos k x|t pos xs|t pos xs|t pos x|t pos|t f l|t|t k|t k x|t k x|t xs
-                 | |t|t|t|t|t|t pid|t x|t|t|t|t x|t x|t x|t x|t x|t x|t|t|t|t|t|t|t x|t x|t x|t x|t x|t x|t x|t x];
+                 | |t|t|t|t|t|t pid|t x|t|t|t|t x|t x|t x|t x|t x|t x|t|t|t|t|t|t|t x|t x|t x|t x|t x|t x|t x|t x|t|t xs|k|k x|xs];
     try (apply triple_ret; exact Hinv).
   - (* PopBack *)
     eapply spec_on with (P := fun n' => n' = sel t s - 1 /\ 0 < sel t s); [exact Hinv| |destruct t; cbn [sel]; lia].
